@@ -522,6 +522,31 @@ class Temporal:
     f: Optional[float] = field(default=None, metadata={"type": "Element"})
 
 
+@dataclass
+class BoxA:
+    inner: Optional[Child] = field(default=None, metadata={"type": "Element"})
+    label: Optional[str] = field(default=None, metadata={"type": "Element"})
+    tag: Optional[str] = field(default=None, metadata={"type": "Attribute"})
+
+
+@dataclass
+class BoxB:
+    inner: Optional[Child] = field(default=None, metadata={"type": "Element"})
+    n: int = field(default=0, metadata={"type": "Element"})
+    tag: Optional[str] = field(default=None, metadata={"type": "Attribute"})
+
+
+@dataclass
+class UnionBoxes:
+    """Union of two models whose nested children carry attributes (real text path only, not part of the loaded-classes pool)."""
+
+    class Meta:
+        name = "ub"
+
+    item: Optional[Union[BoxA, BoxB]] = field(default=None, metadata={"type": "Element"})
+    items: List[Union[BoxA, BoxB]] = field(default_factory=list, metadata={"type": "Element", "name": "it"})
+
+
 ALL_MODELS = [Basic, TextAttr, TextStr, ReqText, Lists, TokenLists, Frozen, Nillable, NilChild, NilParent, Child, ParentA, ParentB, NsAttr, Unqualified,
               Sequential, Wrapped, Formats, Unions, Enums, QNames, Alpha, Compound, CompoundSingle, Base, Derived, Sibling, DerivedNest, DerivedB, Dup, Numeric, Textual, UnionModels, NsAttrParent, ShapeBase, CircleV1, CircleV2, ShapeHolder, Family, Holder,
               Wild, WildList, Mixed, AnyTyped, Defaults, Temporal]
